@@ -105,11 +105,35 @@ class Roles:
                     if env2:
                         rec(cands[0]['body'], mode, env2, depth + 1)
                         return
+            if s.get('k') == 'Call' and s.get('ck') == 'operator' and s.get('op') == '()' and s.get('args') and depth < 2:
+                # a local lambda that starts the threads it is given: startThreads(uncompressedFileReadThread, compressedFileReadThread)
+                o = strip_all_casts(s['args'][0])
+                lam = lambdas.get(o.get('id')) if isinstance(o, dict) and o.get('k') == 'Ref' else None
+                if lam is not None:
+                    env2 = {}
+                    for p_, a_ in zip(lam.get('params', []), s['args'][1:]):
+                        q = entry_of(a_, env)
+                        if q:
+                            env2[p_['id']] = q
+                    if env2:
+                        rec(lam['body'], mode, env2, depth + 1)
+                        return
             if s.get('k') == 'Lambda':
                 return
             from facts import children
             for c in children(s):
                 rec(c, mode, env, depth)
+        # local lambdas of open(): name -> lambda node
+        lambdas = {}
+        for n in walk(self.open_fn['body']):
+            if n.get('k') == 'Decl':
+                for v in n['vars']:
+                    x = v.get('init')
+                    for _ in range(4):
+                        if isinstance(x, dict) and x.get('k') in ('Cast', 'Construct') and (x.get('sub') or x.get('args')):
+                            x = x.get('sub') or x['args'][0]
+                    if isinstance(x, dict) and x.get('k') == 'Lambda':
+                        lambdas[v['id']] = x
         rec(self.open_fn['body'], None, {})
         if len(self.threads) < 4:
             raise AnalysisBroken('found %d thread entry points in File::open, expected 4' % len(self.threads))
